@@ -199,7 +199,9 @@ def usable_rule(ck, mod, fname, label, expect_updates):
                 # for byte by the provenance rule below (delivered-bytes-*), not by this call-shape rule
                 DEFERRED.append("%s: %s" % (fname, what))
                 continue
-            ok = bool(ups) and not f.can_reach(ec.id, c.id, avoid_insts=[u.id for u in ups])
+            # (every path to a return passes the finalize - derive-V above - so "a return is reachable without the update" is "the
+            # finalize is"; the walk prunes branches on constant conditions, e.g. a helper's 'if (len != 0)' inlined with len = 32)
+            ok = bool(ups) and not ir.rets_reachable_avoiding(f, [u.id for u in ups], start=ec.id)
             ck.ob(ok, "R-C17-USABLE", fname, "mix-%s[%s]" % (what, label),
                   "all 32 bytes of %s are absorbed into the hash that yields the new V on every path" % what,
                   "the new V is derived without absorbing %s on some path: delivered entropy bytes / old state not mixed in" % what,
@@ -212,6 +214,9 @@ def usable_rule(ck, mod, fname, label, expect_updates):
     for fld, val in need:
         off = fields[fld]["offset"]
         st = [s for s in f.insts if s.op == "store" and ir.ptr_base(f, s.ops[1]) == (("a", 0), off)]
+        if fld == "reseed_limit":
+            # the documented setter called on this state sets the field as well (which value: C16's R-C16-CLAMP)
+            st += [c_ for c_ in f.calls("tinyjambu_prng_set_reseed_limit") if ir.ptr_base(f, c_.call_args()[0]) == (("a", 0), 0)]
         esc = ir.rets_reachable_avoiding(f, [s.id for s in st], start=ec.id)
         ck.ob(bool(st) and not esc, "R-C17-USABLE", fname, "set-%s[%s]" % (fld, label),
               "%s is set on every path after the entropy request" % fld,
